@@ -415,7 +415,8 @@ func c15Cow(p *Prog, r *Report, prefix string) {
 			rb = append(rb, "no RemoveEvent arm")
 		}
 		guarded := false
-		eachCall(onEvent, func(c ssa.CallInstruction) {
+		for _, oef := range withCallees(p, onEvent, 2) {
+		eachCall(oef, func(c ssa.CallInstruction) {
 			if !callIsMethod(c, "sync/atomic", "Value", "Store") {
 				return
 			}
@@ -429,13 +430,16 @@ func c15Cow(p *Prog, r *Report, prefix string) {
 				if xok && yok && xc.Call.StaticCallee() != nil && yc.Call.StaticCallee() != nil &&
 					xc.Call.StaticCallee().Name() == "Key" && yc.Call.StaticCallee().Name() == "Key" {
 					// one side from the event, the other from the ranged element
+					// one key belongs to an element of the ranged host slice, the other to the host being removed
 					fromEvt := func(cl *ssa.Call) bool {
 						for _, o := range origins(cl.Call.Args[0]) {
-							if f, _ := loadedField(o); f != nil && f.Name() == "Host" {
-								return true
+							if ld, ok := o.(*ssa.UnOp); ok {
+								if _, isElem := ld.X.(*ssa.IndexAddr); isElem {
+									return false
+								}
 							}
 						}
-						return false
+						return true
 					}
 					if fromEvt(xc) != fromEvt(yc) {
 						guarded = true
@@ -465,6 +469,7 @@ func c15Cow(p *Prog, r *Report, prefix string) {
 				}
 			}
 		})
+		}
 		if !guarded {
 			rb = append(rb, "no publication guarded by `host.Key() == evt.Host.Key()`: Remove does not drop the matching host")
 		}
